@@ -14,8 +14,8 @@ ways, `peek`, `replace(mask)` and `clear`.
 
 `replace` is an exclusive method called both by its own adapter and by `clear`'s body, so the two
 transactions conflict; which one the scheduler prefers is not fixed by the source (no priority is
-declared).  The model lets `replace` win (what the current elaboration does); the correspondence
-never attempts both in one cycle.
+declared).  `arbitrate`/`stepP` model the scheduler's choice; which of the two has priority is read
+off the elaborated design by the harness.
 -/
 namespace TxV.PEAllocator
 
@@ -119,6 +119,18 @@ def step (c : Cfg) (s : State) (i : In) : State × Out :=
   ({ mask := m3 },
    { alloc := aout, free := fout, peek := if i.peek then some s.mask else none, replace := rrun, clear := crun,
      rdy := enc.2 })
+
+/-- The adapter of `replace` and the body of `clear` both call the exclusive method `replace` (:89), so
+    the scheduler grants at most one of the two per cycle; both are always ready, so the one with the
+    higher (static, elaboration-defined) priority wins.  `clearFirst` = `clear` has priority. -/
+def arbitrate (clearFirst : Bool) (i : In) : In :=
+  if i.replace.isSome && i.clear then
+    (if clearFirst then { i with replace := none } else { i with clear := false })
+  else i
+
+/-- one cycle including the scheduler's choice between `replace` and `clear` -/
+def stepP (c : Cfg) (clearFirst : Bool) (s : State) (i : In) : State × Out :=
+  step c s (arbitrate clearFirst i)
 
 def run (c : Cfg) (s : State) : List In → State × List Out
   | [] => (s, [])
